@@ -25,6 +25,8 @@ import Gotree.Lemmas.C16CliRun
 import Gotree.Lemmas.C16TopoCli
 import Gotree.Lemmas.C16Opts
 import Gotree.Lemmas.C16DepthGo
+import Gotree.Model.C16DepthGoU
+import Gotree.Lemmas.C16DepthDist
 import Gotree.Gen.C16Source
 
 namespace Gotree.C16
@@ -176,6 +178,65 @@ theorem computeDepths_rooted_meets_spec (t : T) (h : t.rooted = true) :
 
 example : (T.node ⟨"", []⟩ 0 [(EdgeD.blank, T.leaf "a"), (EdgeD.blank, .node ⟨"", []⟩ 0 [(EdgeD.blank, T.leaf "b"), (EdgeD.blank, T.leaf "c")])]).rooted = true := by
   decide
+
+/-! ### unrooted trees: `computeDepthUnRooted` (model `goComputeDepthsUnrooted`: the reset of 7dc6678, then the
+   level-by-level loop, statement by statement) and what "depth" means
+
+   Oracle of every unrooted case: `tipDistOKInt (adjOf t) depths` on the implementation's own output.
+   `depth_is_distance_to_closest_tip`: a list of depths that passes it gives, for EVERY node, the number of
+   branches of a shortest walk to a node with one neighbour (`IsTipDist`), on any neighbour table.
+   Full statement wanted for the model (not proved: needs the invariant of the level loop — after pass k the
+   nodes at distance ≤ k are filled, `nodes` is exactly the set at distance k, fuel suffices):
+     ∀ t, ¬t.rooted → ∃ ds, goComputeDepthsUnrooted t stale = some ds ∧ tipDistOKInt (adjOf t) ds = true
+   proved below for every unrooted binary topology of 4, 5, 6 tips and generator outputs (`_partial`), and
+   checked on every unrooted case of every run (tie `depths-go-unrooted`). -/
+
+/-- ★ depths passing the oracle predicate are, node by node, the distance in branches to the closest tip -/
+theorem depth_is_distance_to_closest_tip (adj : List (List Nat)) (dep : List Nat) (h : tipDistOK adj dep = true)
+    (v : Nat) (hv : v < adj.length) : IsTipDist adj v (dep.getD v 0) :=
+  tipDistOK_sound adj dep h v hv
+
+/-- the distance to the closest tip is unique: two lists passing the oracle agree on every node -/
+theorem depth_oracle_determines_depths (adj : List (List Nat)) (d1 d2 : List Nat) (h1 : tipDistOK adj d1 = true)
+    (h2 : tipDistOK adj d2 = true) (v : Nat) (hv : v < adj.length) : d1.getD v 0 = d2.getD v 0 :=
+  tipDist_unique adj v _ _ (tipDistOK_sound adj d1 h1 v hv) (tipDistOK_sound adj d2 h2 v hv)
+
+/-- partial: the model of `computeDepthUnRooted` stops within its fuel and its depths pass the oracle
+    (hence are the distances to the closest tip) and equal the two-pass Spec `depthsOf`, on all 3 + 15 +
+    105 unrooted topologies of 4, 5, 6 tips and on unrooted generator outputs (kernel evaluation) -/
+theorem computeDepthUnRooted_meets_spec_partial :
+    ([4, 5, 6].all fun (n : Nat) =>
+      match allTopologies (n : Int) false with
+      | .ok ts => ts.all fun t =>
+          match goComputeDepthsUnrooted t with
+          | some ds => tipDistOKInt (adjOf t) ds && depthsOK t ds
+          | none => false
+      | _ => false) = true ∧
+    ([run .caterpillar 7 false [] [], run .balanced 3 false [] [], run .uniform 8 false [0, 2, 1, 5, 3, 0] [],
+      run .yule 8 false [1, 0, 3, 2, 4, 1] [], run .star 5 false [] []].all fun r =>
+      match r with
+      | .ok o => !o.t.rooted &&
+          (match goComputeDepthsUnrooted o.t with
+           | some ds => tipDistOKInt (adjOf o.t) ds && depthsOK o.t ds
+           | none => false)
+      | _ => false) = true := by
+  constructor <;> decide +kernel
+
+/-- before 7dc6678 the loop kept the depths computed earlier: with stale depths (here: those of the
+    tree while it was rooted elsewhere, all 7) nothing is filled and the stale values are reported;
+    the reset makes the result independent of them -/
+theorem computeDepthUnRooted_stale_pinned_fails :
+    (match run .caterpillar 5 false [] [] with
+     | .ok o =>
+       (match goComputeDepthsUnrootedPinned o.t (List.replicate o.t.size 7) with
+        | some ds => !tipDistOKInt (adjOf o.t) ds
+        | none => true) &&
+       goComputeDepthsUnrooted o.t (List.replicate o.t.size 7) == goComputeDepthsUnrooted o.t [] &&
+       (match goComputeDepthsUnrooted o.t (List.replicate o.t.size 7) with
+        | some ds => tipDistOKInt (adjOf o.t) ds
+        | none => false)
+     | _ => false) = true := by
+  decide +kernel
 
 /-! ### gen_rejects -/
 
